@@ -147,6 +147,71 @@ type scenario struct {
 	name string
 	run  func(c *simCluster)
 	size int
+	// static: no membership change, no snapshot: the schedule is also run under the abstract shadow (vh raft abs)
+	static bool
+}
+
+// disconnect: the connection of node id to peer broke (the `disconnected` case of stateLoop).
+func (c *simCluster) disconnect(id, peer uint64) {
+	n := c.nodes[id]
+	c.run(n, "disconnected", fmt.Sprintf("(EDisconnected %d)", peer), func() (response, []string) {
+		n.disconnected(peer)
+		return nil, nil
+	})
+}
+
+// loseQuorum: leader id hears from nobody any more and steps down at its next quorum check.
+func (c *simCluster) loseQuorum(id uint64) {
+	n := c.nodes[id]
+	if n.cur != Leader {
+		return
+	}
+	for _, fid := range sortedReplIDs(n.l) {
+		rp := n.l.repls[fid]
+		c.upd[id] = append(c.upd[id], replUpdate{&rp.status, noContact{time.Now(), errSimAbort}})
+		c.breakConn([2]uint64{id, fid})
+	}
+	for len(c.upd[id]) > 0 && n.cur == Leader {
+		c.doReplUpdate(n)
+	}
+	if n.cur == Leader {
+		c.doTimeout(n)
+	}
+}
+
+// electWith: node id campaigns (again and again) until it wins; only the listed voters hear its requests.
+func (c *simCluster) electWith(id uint64, voters ...uint64) bool {
+	n := c.nodes[id]
+	ok := func(v uint64) bool {
+		for _, x := range voters {
+			if x == v {
+				return true
+			}
+		}
+		return false
+	}
+	for round := 0; round < 4 && n.cur != Leader; round++ {
+		c.doTimeout(n)
+		for k := 0; k < 40 && n.cur == Candidate; k++ {
+			before := len(c.w.cases) + len(c.net)
+			c.candidateStep(n)
+			c.deliverAll(func(m *simMsg) bool {
+				return m.kind == rpcVote && ((m.from == id && ok(m.to)) || (m.to == id && ok(m.from)))
+			})
+			if len(c.w.cases)+len(c.net) == before {
+				break
+			}
+		}
+		// requests to the others are lost
+		var keep []*simMsg
+		for _, m := range c.net {
+			if !(m.kind == rpcVote && m.from == id) {
+				keep = append(keep, m)
+			}
+		}
+		c.net = keep
+	}
+	return n.cur == Leader
 }
 
 var scenarios = []scenario{
@@ -186,7 +251,7 @@ var scenarios = []scenario{
 			c.deliverAll(func(m *simMsg) bool { return m.kind == rpcVote })
 		}
 		c.replicate(2)
-	}, 5},
+	}, 5, false},
 	{"leader-change-with-pending-actions", func(c *simCluster) {
 		c.elect(1)
 		c.replicate(1)
@@ -209,7 +274,7 @@ var scenarios = []scenario{
 			cfg.Nodes[1] = nn
 		})
 		c.replicate(3)
-	}, 3},
+	}, 3, false},
 	{"deposed-leader-campaigns", func(c *simCluster) {
 		// the old leader loses contact, steps down and campaigns while its followers still follow it
 		c.elect(1)
@@ -236,7 +301,85 @@ var scenarios = []scenario{
 			c.candidateStep(c.nodes[2])
 		}
 		c.deliverAll(func(m *simMsg) bool { return m.kind == rpcVote })
-	}, 3},
+	}, 3, true},
+	{"conflicting-suffix-same-term-as-prev", func(c *simCluster) {
+		// Two leader changes: follower 5 holds (4, term 3) from a leader that never reached a quorum, while the
+		// leader of term 4 holds (4, term 2) right after the matching entry (3, term 2): the first conflicting
+		// entry of its request has the term of the matched previous entry.
+		c.elect(1) // term 2, no-op at 2
+		c.replicate(1)
+		c.doClient(c.nodes[1], []entryType{entryUpdate}) // index 3
+		c.replicate(1)
+		c.doClient(c.nodes[1], []entryType{entryUpdate}) // index 4, reaches node 2 only
+		c.replicate(1, 2)
+		for _, v := range []uint64{3, 4, 5} {
+			c.disconnect(v, 1)
+		}
+		c.electWith(3, 4, 5) // term 3, no-op at 4
+		c.replicate(3, 5)    // only node 5 gets (4, term 3)
+		c.loseQuorum(1)
+		c.loseQuorum(3)
+		c.disconnect(4, 3)
+		c.disconnect(2, 1)
+		c.electWith(2, 1, 4) // a later term; log ... (4, term 2), no-op at 5
+		c.replicate(2, 5)
+		c.doClient(c.nodes[2], []entryType{entryUpdate})
+		c.replicate(2)
+	}, 5, true},
+	{"figure-8", func(c *simCluster) {
+		// the schedule of Figure 8 of the Raft paper: an entry of an old term replicated on a majority by a
+		// later leader is not committed by counting, and may still be overwritten
+		c.elect(1)
+		c.replicate(1)
+		c.doClient(c.nodes[1], []entryType{entryUpdate}) // index 3 (term 2)
+		c.replicate(1, 2)
+		for _, v := range []uint64{3, 4, 5} {
+			c.disconnect(v, 1)
+		}
+		c.loseQuorum(1)
+		c.electWith(5, 3, 4)                             // term 3
+		c.doClient(c.nodes[5], []entryType{entryUpdate}) // index 4 (term 3), nobody else
+		c.loseQuorum(5)
+		c.disconnect(2, 1)
+		c.disconnect(3, 5)
+		c.electWith(1, 2, 3) // term 4: replicates (3, term 2) to node 3: on a majority, but not committed
+		c.replicate(1, 3)
+		c.loseQuorum(1)
+		c.disconnect(2, 1)
+		c.disconnect(3, 1)
+		c.disconnect(4, 5)
+		c.electWith(5, 2, 3, 4) // may win or not, depending on what (1) committed
+		if c.nodes[5].cur == Leader {
+			c.replicate(5)
+		}
+	}, 5, true},
+	{"follower-compacts-then-leads", func(c *simCluster) {
+		// node 2 takes a snapshot and compacts its log as a follower, then becomes leader and must serve
+		// followers from its compacted log
+		c.elect(1)
+		c.replicate(1)
+		for k := 0; k < 30; k++ {
+			c.doClient(c.nodes[1], []entryType{entryUpdate, entryUpdate, entryUpdate})
+			if k%3 == 0 {
+				c.replicate(1)
+			}
+		}
+		c.replicate(1)
+		for k := 0; k < 3; k++ {
+			c.snapshotStep(c.nodes[2])
+		}
+		c.transfer(1, 2)
+		c.deliverAll(func(m *simMsg) bool { return m.kind == rpcTimeoutNow })
+		for k := 0; k < 40 && c.nodes[2].cur == Candidate; k++ {
+			c.candidateStep(c.nodes[2])
+			c.deliverAll(func(m *simMsg) bool { return m.kind == rpcVote })
+		}
+		c.replicate(2)
+		if c.nodes[2].cur == Leader {
+			c.doClient(c.nodes[2], []entryType{entryUpdate})
+			c.replicate(2)
+		}
+	}, 3, false},
 	{"snapshot-compaction-then-updates", func(c *simCluster) {
 		c.elect(1)
 		c.replicate(1)
@@ -259,7 +402,7 @@ var scenarios = []scenario{
 		}
 		c.doClient(c.nodes[1], []entryType{entryUpdate, entryRead})
 		c.replicate(1)
-	}, 3},
+	}, 3, false},
 	{"lagging-follower-installs-snapshot", func(c *simCluster) {
 		c.elect(1)
 		c.replicate(1, 2) // node 3 hears nothing
@@ -275,7 +418,7 @@ var scenarios = []scenario{
 		c.replicate(1)
 		c.crash(3, true)
 		c.replicate(1)
-	}, 3},
+	}, 3, false},
 	{"compaction-at-follower-match-boundary", func(c *simCluster) {
 		// follower 3 stops exactly at the last index of the leader's first segment; the leader goes on
 		// with follower 2, takes a snapshot and compacts that segment; then talks to follower 3 again
@@ -309,7 +452,7 @@ var scenarios = []scenario{
 			c.doFlr(n, 3)
 			c.replicate(1)
 		}
-	}, 3},
+	}, 3, false},
 	{"promote-with-slow-rounds", func(c *simCluster) {
 		c.slow = true
 		for _, n := range c.nodes {
@@ -326,7 +469,7 @@ var scenarios = []scenario{
 			c.doClient(c.nodes[1], []entryType{entryUpdate})
 			c.replicate(1)
 		}
-	}, 3},
+	}, 3, false},
 	{"single-voter-grows", func(c *simCluster) {
 		c.elect(1)
 		_ = c.addNode(2, nil)
@@ -343,7 +486,7 @@ var scenarios = []scenario{
 			cfg.Nodes[2] = nn
 		})
 		c.replicate(1)
-	}, 1},
+	}, 1, false},
 }
 
 func scenariosMain(args []string) int {
